@@ -12,6 +12,7 @@ import (
 	"time"
 
 	ipfslog "berty.tech/go-ipfs-log"
+	orbitdb "berty.tech/go-orbit-db"
 	"berty.tech/go-orbit-db/iface"
 )
 
@@ -96,6 +97,88 @@ func (w *World) execCloseOp(ctx context.Context, toks []string) (bool, error) {
 			w.dbs[w.curDB].closed[p] = true
 		}
 		w.printf("closed %d first=%s second=%s\n", p, r1, r2)
+	case "reopenstore":
+		// reopenstore p : the SAME instance opens the database again (a new handle) and loads it
+		p := atoi(toks[1])
+		pr := w.peers[p]
+		var s iface.Store
+		var err error
+		opts := &iface.CreateDBOptions{}
+		switch w.kind {
+		case "kv":
+			s, err = pr.odb.KeyValue(ctx, w.dbAddr, opts)
+		case "doc":
+			s, err = pr.odb.Docs(ctx, w.dbAddr, opts)
+		case "log":
+			s, err = pr.odb.Log(ctx, w.dbAddr, opts)
+		}
+		if err != nil {
+			w.printf("restarted %d openerr identity=true\n", p)
+			return true, nil
+		}
+		w.stores[p] = s
+		if w.curDB < len(w.dbs) && w.dbs[w.curDB].closed != nil {
+			delete(w.dbs[w.curDB].closed, p)
+		}
+		w.registerStore(s)
+		res := "ok"
+		if err := s.Load(ctx, -1); err != nil {
+			res = "err"
+		}
+		w.printf("restarted %d %s identity=true\n", p, res)
+	case "staleclose":
+		// staleclose p : Close called once more on the OLD handle while a newer handle of the same
+		// database is open on the instance (a leftover `defer old.Close()`)
+		p := atoi(toks[1])
+		old := w.closedOf[p]
+		if old == nil {
+			return true, nil
+		}
+		w.printf("afterclose %d close=%s\n", p, timed(2*time.Second, old.Close))
+	case "leveldrop":
+		// leveldrop p : a second instance of peer p over the library's OWN cache manager (leveldb, in
+		// memory): open a database, close the handle, open it again, then Drop through the OLD handle;
+		// the Drop, a write through the new handle and closing the instance must all return
+		p := atoi(toks[1])
+		pr := w.peers[p]
+		dir := ":memory:"
+		id := w.net.ids[pr.idx].String() + "-lvl"
+		// (the direct-channel factory registers the instance's emitter with the simulated network:
+		// keep the main instance's registration)
+		w.net.mu.Lock()
+		mainEmitter := w.net.emit[pr.idx]
+		w.net.mu.Unlock()
+		odb, err := orbitdb.NewOrbitDB(ctx, pr.api, &orbitdb.NewOrbitDBOptions{
+			ID: &id, Directory: &dir, Keystore: pr.ks, Identity: pr.identity,
+			PubSub: &simPubSub{net: w.net, p: pr.idx}, DirectChannelFactory: w.net.dcFactory(pr.idx),
+		})
+		w.net.mu.Lock()
+		w.net.emit[pr.idx] = mainEmitter
+		w.net.mu.Unlock()
+		if err != nil {
+			return true, err
+		}
+		name := fmt.Sprintf("leveldrop-%d", w.barrierSeq)
+		w.barrierSeq++
+		var parts []string
+		add := func(n string, f func() error) { parts = append(parts, n+"="+timed(2*time.Second, f)) }
+		h1, err := odb.Log(ctx, name, nil)
+		if err != nil {
+			return true, err
+		}
+		_, _ = h1.Add(ctx, []byte("x"))
+		addr := h1.Address().String()
+		add("close", h1.Close)
+		var h2 iface.EventLogStore
+		add("open", func() error { var e error; h2, e = odb.Log(ctx, addr, nil); return e })
+		add("drop", h1.Drop)
+		if h2 != nil {
+			add("add", func() error { _, e := h2.Add(ctx, []byte("y")); return e })
+			add("close", h2.Close)
+		}
+		parts = append(parts, "closeinstance="+timed(3*time.Second, odb.Close))
+		w.net.closeTopic(p, addr)
+		w.printf("leveldropped %d %s\n", p, strings.Join(parts, " "))
 	case "afterclose":
 		// operations on a closed store return promptly (an error or a harmless result), never panic or hang
 		p := atoi(toks[1])
